@@ -633,6 +633,17 @@ def norm_refs(e):
         return ('proj', base, path) if path else base
     return e
 
+def norm_arith(e):
+    """`(a +checked b).0` and `a + b` are the same value: builds with and without overflow checks then give one text"""
+    if not isinstance(e, tuple):
+        return e
+    e = expr_children_map(e, norm_arith)
+    if e[0] == 'proj' and tuple(e[2]) == ('0',) and isinstance(e[1], tuple) and e[1][0] == 'bin' and e[1][1].endswith('WithOverflow'):
+        return ('bin', e[1][1][:-len('WithOverflow')], e[1][2], e[1][3])
+    if e[0] == 'bin' and e[1].endswith('Unchecked'):
+        return ('bin', e[1][:-len('Unchecked')], e[2], e[3])
+    return e
+
 def expr_calls(e):
     return [x for x in expr_walk(e) if isinstance(x, tuple) and x[0] == 'call']
 
